@@ -1178,6 +1178,7 @@ def r5_8(ctx):
     cm = ctx.repo.mod("containers")
     fj = cm.functions.get("Lines.justify")
     if fj is not None:
+        units_check(ctx, fj, {"width"}, floor=2)
         n_calls += units_calls_check(ctx, fj, "justify")
     ctx.floor(n_calls, 4, "width arguments passed between text-shaping methods")
 
